@@ -105,6 +105,12 @@ def handle (j : Json) : R Json := do
     paired := ← parsePairings (← getArr st "paired"), verifier := none }
   let mut outs : Array Json := #[]
   for op in ← getArr j "ops" do
+    if let .ok (.str ev) := op.getObjVal? "ev" then
+      -- bystander activity: connection made/lost, a refused request on another connection
+      let e : Ev := if ev == "conn-lost" then .connLost else .other
+      ps := (stepEv cfg ps e).1
+      outs := outs.push (Json.mkObj [("bystander", Json.str ev), ("paired", jpairings ps.paired)])
+      continue
     let r : Req := { body := ← getHex op "body", salt := ← getHex op "salt", bRand := ← getHex op "b" }
     let (ps', o, calls) := step cfg ps r
     ps := ps'
